@@ -377,6 +377,116 @@ pub fn d7(residue: usize, chain: usize) -> bool {
     st.stalls_fired.iter().filter(|s| s.0 == S::DISP_CHILD).count() >= 6
 }
 
+// ---------------------------------------------------------------------------------------------
+// D10 (open finding): a guard taken inside a payload destructor that runs during collection does
+// not protect: the collecting thread's announced epoch is moved forward under it.
+
+pub static D10_LEDGER: AtomicUsize = AtomicUsize::new(1);
+
+pub struct Big {
+    cell: Arc<Sh>,
+    sid: u32,
+    next: AtomicRc<Big>,
+}
+unsafe impl circ::RcObject for Big {
+    fn pop_edges(&mut self, out: &mut Vec<Rc<Self>>) {
+        out.push(self.next.take());
+    }
+}
+pub struct Tiny {
+    next: AtomicRc<Tiny>,
+}
+unsafe impl circ::RcObject for Tiny {
+    fn pop_edges(&mut self, out: &mut Vec<Rc<Self>>) {
+        out.push(self.next.take());
+    }
+}
+impl Drop for Big {
+    fn drop(&mut self) {
+        // user destructor, running inside a collection
+        let in_collect = mon::IN_COLLECT.with(|c| c.get()) > 0;
+        let g = circ::cs();
+        let a0 = verif::local_state(&g).map(|s| s.announced).unwrap_or(0);
+        let s = self.cell.roots[0].load(SeqCst, &g);
+        let ledger = D10_LEDGER.load(SeqCst) == 1;
+        if !s.is_null() && ledger {
+            l_snap(self.sid, 0, 1);
+            obj(self.sid).snap_dtor_ctx.fetch_add(1, SeqCst);
+        }
+        mon::oplog(0, format!("Big::drop (inside collection: {}): g = cs() at epoch {}; s = cell.load()", in_collect, a0));
+        set(1, 1); // let the other thread unlink S
+        wait(2, 1);
+        for round in 0..6 {
+            // 64 zero-hitting drops fill the local bag: push_bag + schedule_collection (re-pin)
+            for _ in 0..64 {
+                drop(Rc::new(Tiny { next: AtomicRc::null() }));
+            }
+            set(3, 2 * round + 1);
+            wait(4, 2 * round + 2);
+        }
+        let a1 = verif::local_state(&g).map(|s| s.announced).unwrap_or(0);
+        mon::eval("guard-model");
+        if a1 != a0 {
+            mon::report(
+                "C16",
+                "C16|epoch-moved-under-live-guard|context=destructor-during-collection",
+                format!("a guard taken inside a destructor that runs during collection: the participant's announced epoch moved from {} to {} while the guard was live", a0, a1),
+            );
+        }
+        if ledger {
+            if let Some(n) = s.as_ref() {
+                n.check_live(Some(self.sid), "C02", "load|context=destructor-during-collection");
+            }
+        }
+        if !s.is_null() && ledger {
+            obj(self.sid).snap_dtor_ctx.fetch_sub(1, SeqCst);
+            l_snap(self.sid, 0, -1);
+        }
+        drop(g);
+        set(9, 1);
+    }
+}
+
+pub fn d10(residue: usize) -> bool {
+    reset(residue, 0);
+    mon::TRACK_OBJS.store(true, SeqCst);
+    let (leaf, sid) = new_node(3);
+    let sh = Arc::new(Sh { roots: vec![AtomicRc::null()], wroots: vec![] });
+    {
+        let g = circ::cs();
+        sh.roots[0].store(leaf, SeqCst, &g);
+    }
+    let big = Rc::new(Big { cell: sh.clone(), sid, next: AtomicRc::null() });
+    churn(2);
+    let b0: Box<dyn FnOnce() + Send> = Box::new(move || {
+        drop(big);
+        mon::oplog(0, "drop(big); churn x12 (Big::drop runs inside one of these collections)".into());
+        churn(12);
+        set(9, 1);
+    });
+    let s1 = sh.clone();
+    let b1: Box<dyn FnOnce() + Send> = Box::new(move || {
+        sched::block_until(|| get(1) == 1 || get(9) == 1);
+        if get(1) != 1 {
+            return;
+        }
+        let old = s1.roots[0].swap(Rc::null(), SeqCst);
+        drop(old);
+        churn(1);
+        mon::oplog(1, "old = cell.swap(null); drop(old); flush".into());
+        set(2, 1);
+        for round in 0..6 {
+            sched::block_until(|| get(3) == 2 * round + 1 || get(9) == 1);
+            churn(2);
+            set(4, 2 * round + 2);
+        }
+    });
+    let st = run("d10", J::obj().set("scenario", "d10").set("residue", residue), vec![], vec![b0, b1]);
+    let _ = st;
+    finish(&sh);
+    get(1) == 1
+}
+
 pub struct ScenOut {
     pub execs: u64,
     pub materialised: u64,
@@ -431,6 +541,11 @@ pub fn run_all(which: &str, shard: u64, nshards: u64, thorough: bool) -> ScenOut
             for chain in if thorough { vec![700usize, 1000] } else { vec![1000] } {
                 one("d7", vec![r, chain], &|| d7(r, chain), &mut out);
             }
+        }
+    }
+    if which == "d10" {
+        for &r in &[0usize, 5, 11] {
+            one("d10", vec![r], &|| d10(r), &mut out);
         }
     }
     out.by.add("not-materialised-waits", NOT_MATERIALISED.load(SeqCst) as u64);
